@@ -17,7 +17,7 @@
 
   Statements that merely restate an existing theorem in C07's terms say so (`from Cxx`).
 -/
-import DuckModel.Props.C06
+import DuckModel.Props.C06Core
 import DuckModel.Props.C11
 import DuckModel.Props.C12
 import DuckModel.Props.C13
